@@ -1,0 +1,196 @@
+//go:build verif
+// +build verif
+
+// Contracts for package buffer, read only by the verifier in /verif (build tag verif).
+// This file contains no code.
+//
+// A View is a []byte; a VectorisedView is a sequence of Views plus a cached total size.
+// Representation invariant wf(vv): vv.size == vsum(vv.views), the total length of its views.
+// arr(s)/off(s) name the backing array of a slice and the offset of s[0] in it, so
+// "same bytes" is stated as "same window of the same array".
+
+package buffer
+
+//@ func NewView props C16
+//@   requires 0 <= size && size <= 1 << 40
+//@   ensures len(result) == size && cap(result) == size && fresh(result)
+//@   ensures forall(k, 0, size, result[k] == 0)
+
+//@ func NewViewFromBytes props C16
+//@   ensures len(result) == len(b)
+//@   ensures forall(k, 0, len(b), result[k] == b[k])
+//@   ensures len(b) == 0 || fresh(result)
+
+//@ func (*View).TrimFront props C16 C01 C08
+//@   requires 0 <= count && count <= len(*v)
+//@   ensures arr(*v) == old(arr(*v)) && off(*v) == old(off(*v)) + count
+//@   ensures len(*v) == old(len(*v)) - count && cap(*v) == old(cap(*v)) - count
+//@   modifies *v
+
+// After CapLength the capacity equals the length: re-slicing beyond the cap is a bounds
+// error, so the excluded bytes cannot be exposed again.
+//@ func (*View).CapLength props C16 C01 C08
+//@   requires 0 <= length && length <= cap(*v)
+//@   ensures arr(*v) == old(arr(*v)) && off(*v) == old(off(*v))
+//@   ensures len(*v) == length && cap(*v) == length
+//@   modifies *v
+
+//@ func (*View).NextBytes props C16
+//@   requires 0 <= size && size <= len(*v)
+//@   ensures arr(result) == old(arr(*v)) && off(result) == old(off(*v)) && len(result) == size
+//@   ensures arr(*v) == old(arr(*v)) && off(*v) == old(off(*v)) + size && len(*v) == old(len(*v)) - size
+//@   modifies *v
+
+//@ func (View).ToVectorisedView props C16
+//@   ensures result.size == len(v) && len(result.views) == 1 && fresh(result.views)
+//@   ensures arr(result.views[0]) == arr(v) && off(result.views[0]) == off(v) && len(result.views[0]) == len(v)
+//@   ensures result.size == vsum(result.views)
+
+//@ func NewVectorisedView props C16
+//@   ensures result.size == size
+//@   ensures arr(result.views) == arr(views) && off(result.views) == off(views) && len(result.views) == len(views) && cap(result.views) == cap(views)
+
+//@ func (VectorisedView).Size props C16
+//@   ensures result == vv.size
+
+//@ func (VectorisedView).Views props C16
+//@   ensures arr(result) == arr(vv.views) && off(result) == off(vv.views) && len(result) == len(vv.views)
+
+//@ func (VectorisedView).First props C16 C07
+//@   ensures implies(len(vv.views) == 0, len(result) == 0 && arr(result) == 0)
+//@   ensures implies(len(vv.views) > 0, arr(result) == arr(vv.views[0]) && off(result) == off(vv.views[0]) && len(result) == len(vv.views[0]))
+
+//@ func (*VectorisedView).RemoveFirst props C16
+//@   requires vv.size == vsum(vv.views)
+//@   ensures vv.size == vsum(vv.views)
+//@   ensures implies(old(len(vv.views)) == 0, vv.size == old(vv.size) && len(vv.views) == 0)
+//@   ensures implies(old(len(vv.views)) > 0, vv.size == old(vv.size) - old(len(vv.views[0])) && len(vv.views) == old(len(vv.views)) - 1)
+//@   ensures arr(vv.views) == old(arr(vv.views)) && off(vv.views) + len(vv.views) == old(off(vv.views) + len(vv.views))
+//@   modifies vv.size, vv.views
+
+// TrimFront(count) drops the first max(count,0) bytes, or everything if there are fewer.
+//@ func (*VectorisedView).TrimFront props C16 C01 C08
+//@   requires vv.size == vsum(vv.views)
+//@   ensures vv.size == vsum(vv.views)
+//@   ensures vv.size == imax(old(vv.size) - imax(count, 0), 0)
+//@   ensures arr(vv.views) == old(arr(vv.views)) && off(vv.views) + len(vv.views) == old(off(vv.views) + len(vv.views))
+//@   loop 1 invariant vv.size == vsum(vv.views)
+//@   loop 1 invariant count <= old(count) && (count >= 0 || count == old(count))
+//@   loop 1 invariant vv.size - count == old(vv.size) - old(count)
+//@   loop 1 invariant arr(vv.views) == old(arr(vv.views)) && off(vv.views) + len(vv.views) == old(off(vv.views) + len(vv.views))
+//@   loop 1 invariant off(vv.views) >= old(off(vv.views))
+//@   modifies vv.size, vv.views, elems(vv.views)
+
+// CapLength(length) keeps the first min(size, max(length,0)) bytes.
+//@ func (*VectorisedView).CapLength props C16 C01 C08
+//@   requires vv.size == vsum(vv.views)
+//@   ensures vv.size == vsum(vv.views)
+//@   ensures vv.size == imin(old(vv.size), imax(length, 0))
+//@   ensures arr(vv.views) == old(arr(vv.views)) && off(vv.views) == old(off(vv.views)) && len(vv.views) <= old(len(vv.views))
+//@   loop 1 invariant -1 <= rangeindex && rangeindex < len(vv.views)
+//@   loop 1 invariant length >= 0 && vv.size == length + vtotal(vv.views, 0, rangeindex + 1)
+//@   modifies vv.size, vv.views, elems(vv.views)
+
+// ToView flattens: the result has exactly size bytes.
+//@ func (VectorisedView).ToView props C16 C11
+//@   requires vv.size == vsum(vv.views) && vv.size <= 1 << 40
+//@   ensures len(result) == vv.size
+//@   loop 1 invariant -1 <= rangeindex && rangeindex < len(vv.views)
+//@   loop 1 invariant len(u) == vtotal(vv.views, 0, rangeindex + 1) && len(u) <= cap(u) && cap(u) >= vv.size
+//@   loop 1 invariant arr(u) != 0 && fresh(u) || cap(u) == 0
+
+// ---------------------------------------------------------------------------
+// Prependable: representation invariant 0 <= usedIdx <= len(buf); the used part is
+// buf[usedIdx:].
+
+//@ func NewPrependable props C16 C06
+//@   requires 0 <= size && size <= 1 << 40
+//@   ensures result.usedIdx == size && len(result.buf) == size && fresh(result.buf)
+
+//@ func NewPrependableFromView props C16
+//@   ensures result.usedIdx == 0 && arr(result.buf) == arr(v) && off(result.buf) == off(v) && len(result.buf) == len(v)
+
+//@ func (Prependable).View props C16 C06
+//@   requires 0 <= p.usedIdx && p.usedIdx <= len(p.buf)
+//@   ensures arr(result) == arr(p.buf) && off(result) == off(p.buf) + p.usedIdx && len(result) == len(p.buf) - p.usedIdx
+
+//@ func (Prependable).UsedLength props C16 C06
+//@   ensures result == len(p.buf) - p.usedIdx
+
+// Prepend(n) returns the n bytes immediately in front of the used part, or nil iff n > usedIdx.
+//@ func (*Prependable).Prepend props C16 C06
+//@   requires 0 <= p.usedIdx && p.usedIdx <= len(p.buf) && size >= 0
+//@   ensures implies(size > old(p.usedIdx), len(result) == 0 && arr(result) == 0 && p.usedIdx == old(p.usedIdx))
+//@   ensures implies(size <= old(p.usedIdx), p.usedIdx == old(p.usedIdx) - size && arr(result) == arr(p.buf)
+//@             && off(result) == off(p.buf) + p.usedIdx && len(result) == size && cap(result) == size)
+//@   modifies p.usedIdx
+
+// ---------------------------------------------------------------------------
+// Byte content against the plain-byte-string reference: bounded harnesses
+// (harness_verif.go), at most 4 chunks, any chunk lengths, offsets and bytes, any k.
+
+//@ func verifFlat props C16
+//@   loop 1 invariant k >= 0
+//@ func verifTotal props C16
+
+//@ func verifMake props C16
+//@   inline
+//@   requires 0 <= n && n <= 4
+
+//@ func verifTrimFront props C16
+//@   bounded at most 4 chunks of at most 4 bytes each (every split of every string up to 16 bytes; any offsets and byte values; count and k in [-2,20])
+//@   requires 0 <= n && n <= 4 && len(v0) <= 4 && len(v1) <= 4 && len(v2) <= 4 && len(v3) <= 4
+//@   requires -2 <= count && count <= 20 && -2 <= k && k <= 20
+//@   unroll_calls * 5
+//@   split n 0 4
+//@   ensures newSize == imax(oldSize - imax(count, 0), 0)
+//@   ensures okGot == (0 <= k && k < newSize)
+//@   ensures implies(okGot, okWant && got == want)
+
+//@ func verifCapLength props C16
+//@   bounded at most 4 chunks of at most 4 bytes each (every split of every string up to 16 bytes; any offsets and byte values; length and k in [-2,20])
+//@   requires 0 <= n && n <= 4 && len(v0) <= 4 && len(v1) <= 4 && len(v2) <= 4 && len(v3) <= 4
+//@   requires -2 <= length && length <= 20 && -2 <= k && k <= 20
+//@   unroll_calls * 5
+//@   split n 0 4
+//@   ensures newSize == imin(oldSize, imax(length, 0))
+//@   ensures okGot == (0 <= k && k < newSize)
+//@   ensures implies(okGot, okWant && got == want)
+
+//@ func verifRemoveFirst props C16
+//@   bounded at most 4 chunks of at most 4 bytes each (every split of every string up to 16 bytes; any offsets and byte values)
+//@   requires 0 <= n && n <= 4 && len(v0) <= 4 && len(v1) <= 4 && len(v2) <= 4 && len(v3) <= 4
+//@   requires -2 <= k && k <= 20
+//@   unroll_calls * 5
+//@   split n 0 4
+//@   ensures implies(n > 0, newSize == oldSize - len(v0))
+//@   ensures okGot == (0 <= k && k < newSize)
+//@   ensures implies(okGot, okWant && got == want)
+
+//@ func verifToView props C16
+//@   bounded at most 4 chunks of at most 4 bytes each (every split of every string up to 16 bytes; any offsets and byte values)
+//@   requires 0 <= n && n <= 4 && len(v0) <= 4 && len(v1) <= 4 && len(v2) <= 4 && len(v3) <= 4
+//@   requires -2 <= k && k <= 20
+//@   unroll_calls * 5
+//@   split n 0 4
+//@   ensures flatLen == size
+//@   ensures okWant == (0 <= k && k < size)
+//@   ensures implies(okWant, got == want)
+
+//@ func verifCloneIndependent props C16
+//@   bounded at most 4 chunks of at most 4 bytes each (every split of every string up to 16 bytes; any offsets and byte values)
+//@   requires 0 <= n && n <= 4 && len(v0) <= 4 && len(v1) <= 4 && len(v2) <= 4 && len(v3) <= 4
+//@   requires -2 <= k && k <= 20 && -2 <= count && count <= 20 && -2 <= length && length <= 20
+//@   unroll_calls * 5
+//@   split n 0 4
+//@   ensures sizeAfter == sizeBefore && okAfter == okBefore
+//@   ensures implies(okBefore, after == before)
+
+//@ func verifCloneSame props C16
+//@   bounded at most 4 chunks of at most 4 bytes each (every split of every string up to 16 bytes; any offsets and byte values)
+//@   requires 0 <= n && n <= 4 && len(v0) <= 4 && len(v1) <= 4 && len(v2) <= 4 && len(v3) <= 4
+//@   requires -2 <= k && k <= 20
+//@   unroll_calls * 5
+//@   split n 0 4
+//@   ensures cloneSize == size && okGot == okWant
+//@   ensures implies(okWant, got == want)
